@@ -7,7 +7,7 @@ macro_rules! impl_bytes_utils_for_allocator {
     const SIZE: usize = core::mem::size_of::<$ty>();
 
     let allocated = $this.allocated();
-    if $offset + SIZE > allocated {
+    if $offset.checked_add(SIZE).is_none_or(|end| end > allocated) {
       return Err(Error::OutOfBounds { $offset, allocated });
     }
 
